@@ -8,7 +8,13 @@ import os
 
 CHECKS = {}
 for _f in sorted(glob.glob(os.path.join(os.path.dirname(os.path.abspath(__file__)), "checks", "C*.json"))):
-    _c = json.load(open(_f))
+    try:
+        _c = json.load(open(_f))
+        _c["parts"], _c["level"], _c["meta"]
+    except Exception as _ex:  # a fragment being edited must not break the other checks
+        import sys
+        sys.stderr.write("registry: skipping %s: %s\n" % (_f, _ex))
+        continue
     for _p in _c["parts"]:
         _p.setdefault("shards", {"quick": 1, "thorough": 1})
         _p.setdefault("deadline", {"quick": 240, "thorough": 2400})
